@@ -330,6 +330,9 @@ func init() {
 			if r := fr.i.findSubmatchStructured(pat, a[1]); r != nil {
 				return r
 			}
+			if r, decided := fr.i.findSubmatchPrefix(pat, a[1]); decided {
+				return r
+			}
 			unsup("FindStringSubmatch on symbolic string (%s)", pat)
 		}
 		m := compileRe(pat).goRe.FindStringSubmatch(s)
@@ -478,3 +481,142 @@ func (i *interpreter) findSubmatchStructured(pat string, s value) value {
 	whole := mkConcat(mkConcat(lit1, d), concatOf(segs[2:]))
 	return []value{whole, d}
 }
+
+// findSubmatchPrefix decides FindStringSubmatch for a pattern anchored at the
+// start whose items (literals, single character classes, alternations of
+// literals, possibly captured) are matched against the concrete text the
+// string is known to start with; a final ".*$" accepts the rest when it is
+// known to be free of newlines. Leftmost-first semantics are kept: an
+// alternative is only skipped when it fails on concrete bytes. Anything that
+// cannot be decided on the concrete lead returns decided=false.
+func (i *interpreter) findSubmatchPrefix(pat string, s value) (value, bool) {
+	re, err := syntax.Parse(pat, syntax.Perl)
+	if err != nil || re.Op != syntax.OpConcat || len(re.Sub) < 2 || (re.Sub[0].Op != syntax.OpBeginText && re.Sub[0].Op != syntax.OpBeginLine) {
+		return nil, false
+	}
+	p := i.path
+	lead := leadText(s)
+	for k := 0; k < len(lead); k++ {
+		if lead[k] >= 0x80 {
+			return nil, false
+		}
+	}
+	whole := len(segmentsOf(s)) <= 1 && lead != "" || isConcreteStr(s)
+	off := 0
+	groups := make([]value, re.MaxCap()+1)
+	for k := range groups {
+		groups[k] = ""
+	}
+	noMatch := func() (value, bool) { return []value(nil), true }
+	// cmp: 1 literal matches at off, 0 mismatch on concrete bytes, -1 the lead is too short to tell
+	cmp := func(lit string) int {
+		n := len(lit)
+		avail := len(lead) - off
+		if avail >= n {
+			if lead[off:off+n] == lit {
+				return 1
+			}
+			return 0
+		}
+		if lead[off:] != lit[:avail] {
+			return 0
+		}
+		if whole {
+			return 0 // the string ends here
+		}
+		return -1
+	}
+	var matchItem func(it *syntax.Regexp) int // 1 ok, 0 no match, -1 undecided
+	matchItem = func(it *syntax.Regexp) int {
+		if it.Flags&syntax.FoldCase != 0 {
+			return -1
+		}
+		switch it.Op {
+		case syntax.OpLiteral:
+			r := cmp(string(it.Rune))
+			if r == 1 {
+				off += len(string(it.Rune))
+			}
+			return r
+		case syntax.OpCharClass:
+			if off >= len(lead) {
+				if whole {
+					return 0
+				}
+				return -1
+			}
+			c := rune(lead[off])
+			in := false
+			for k := 0; k+1 < len(it.Rune); k += 2 {
+				if c >= it.Rune[k] && c <= it.Rune[k+1] {
+					in = true
+				}
+			}
+			if !in {
+				return 0
+			}
+			off++
+			return 1
+		case syntax.OpAlternate:
+			for _, alt := range it.Sub {
+				if alt.Op != syntax.OpLiteral || alt.Flags&syntax.FoldCase != 0 {
+					return -1
+				}
+				switch cmp(string(alt.Rune)) {
+				case 1:
+					off += len(string(alt.Rune))
+					return 1
+				case -1:
+					return -1
+				}
+			}
+			return 0
+		case syntax.OpCapture:
+			start := off
+			r := matchItem(it.Sub[0])
+			if r == 1 {
+				groups[it.Cap] = lead[start:off]
+			}
+			return r
+		}
+		return -1
+	}
+	items := re.Sub[1:]
+	for k := 0; k < len(items); k++ {
+		it := items[k]
+		if it.Op == syntax.OpStar && it.Sub[0].Op == syntax.OpAnyCharNotNL {
+			// ".*" then the end: the rest must be newline free
+			restOK := k == len(items)-1 || (k == len(items)-2 && (items[k+1].Op == syntax.OpEndText || items[k+1].Op == syntax.OpEndLine))
+			if !restOK {
+				return nil, false
+			}
+			if strings.Contains(lead[off:], "\n") {
+				return nil, false
+			}
+			for _, sg := range segmentsOf(s)[1:] {
+				switch sg := sg.(type) {
+				case string:
+					if strings.Contains(sg, "\n") {
+						return nil, false
+					}
+				case *Sym:
+					if !p.noContain(sg.e, "\n") {
+						return nil, false
+					}
+				}
+			}
+			groups[0] = s
+			return groups, true
+		}
+		switch matchItem(it) {
+		case 0:
+			return noMatch()
+		case -1:
+			return nil, false
+		}
+	}
+	groups[0] = lead[:off]
+	return groups, true
+}
+
+func isConcreteStr(v value) bool { _, ok := v.(string); return ok }
